@@ -27,8 +27,13 @@ Clauses (each names the sentence of the statement that licenses it)
   sounding-equal        "the sounding notes of the merged part equal those of the score-level note
                         array" (direct comparison of the two arrays)
   single-identity/-unchanged  "A single part (or a group or list holding one) is returned as is"
-The convenience loader `load_score_as_part` (anchor) is run on written MusicXML files in sub-space
-`loader` with the divisions, registration, voice and note-array clauses.
+  parts-order           "flattening of groups and scores" (anchor): Score.parts / iter_parts hand out the
+                        parts of a nested container depth-first, so that "the first part" is the first
+                        part of the score (evaluated on every multi-part case; sub-space
+                        `container-trees` enumerates every nesting of groups)
+The convenience loader `load_score_as_part` (anchor) is run on written MusicXML files in sub-spaces
+`loader` and `loader-noteless` with the divisions, registration, voice and note-array clauses and with
+elements-present restricted to notes, rests and unpitched notes (identified by id).
 """
 import itertools
 import re
@@ -66,6 +71,10 @@ ASSUMPTIONS = [
     "reports and the MusicXML exporter and symbolic-duration estimator read)",
     "float32 columns are compared within 1e-6 relative; integer columns exactly",
     "mc/ir.py builder (public construction API) is trusted to build what the description says",
+    "'the first part' and the order of 'the parts of a score' are the depth-first order of the part/group "
+    "tree (docstring of iter_parts: groups 'are traversed in a depth-first fashion'; Score.parts is built by it)",
+    "the MusicXML exporter/importer pair is trusted to keep ids, classes, voices and times of notes, rests and "
+    "unpitched notes and the <divisions> of every part of the generated files (complete 4/4 measures)",
 ]
 CHUNK = 8
 
@@ -223,7 +232,9 @@ def check_merged(res, case, merged, S, stats, elements=True):
 
     # --- registration and element table
     objs = check_registration(res, merged)
-    if not elements:  # (a part read back from a file: the element table is the importer's business)
+    if not elements:  # (a part read back from a file: the element table is the importer's business,
+        # except for the notes, rests and unpitched notes, which keep their ids in the file)
+        check_generic_present(res, case, objs, S, L)
         return check_notes(res, case, merged, S, objs, L)
     # public view, class by class (iter_all() without a class enumerates every subclass of object per point)
     classes = sorted({type(o) for o in objs}, key=lambda c: c.__name__)
@@ -256,6 +267,47 @@ def check_merged(res, case, merged, S, stats, elements=True):
                      where="merge_parts: elements", detail="mode=%s" % mode)
     stats["elements"] = sum(observed.values())
     return check_notes(res, case, merged, S, objs, L)
+
+
+def check_generic_present(res, case, objs, S, L):
+    """every note, grace note, rest and unpitched note of every input is in the merged part, with its class, at
+    its musical time (used for parts read back from a file)"""
+    got = Counter()
+    for o in objs:
+        if isinstance(o, S.GenericNote):
+            got[(type(o).__name__, (o.id,), Fraction(int(o.start.t), L), Fraction(int(o.end.t), L))] += 1
+    exp = Counter()
+    for part in case["parts"]:
+        d = pdivs(part)
+        for o in part["objs"]:
+            if o["k"] in M.GN_KINDS:
+                exp[(M.CLASS_OF[o["k"]], (o["id"],), Fraction(o["s"], d), Fraction(o["e"], d))] += 1
+    missing = exp - got
+    if missing:
+        res.fail("elements-present", expected=sorted(fmt_item(x) for x in missing.elements())[:6],
+                 observed=sorted(fmt_item(x) for x in (got - exp).elements())[:6] or "absent",
+                 where="load_score_as_part: notes and rests",
+                 detail="missing from the merged part (times in quarters); input divisions %s" % [pdivs(p) for p in case["parts"]])
+
+
+def check_order(res, case, arg, S):
+    """depth-first flattening of the container: iter_parts (lists, tuples, groups) and Score.parts.
+    Returns a Score (or the PartGroup) holding the structure, for the score-level note array."""
+    exp = [p["id"] for p in case["parts"]]
+    holder = arg
+    if not isinstance(arg, S.Score):
+        ok, got = guarded(res, "parts-order", lambda: [p.id for p in S.iter_parts(arg)])
+        if ok and got != exp:
+            res.fail("parts-order", expected=exp, observed=got, where="iter_parts", detail="shape=%s" % case["shape"])
+        if not isinstance(arg, S.PartGroup):
+            ok, holder = guarded(res, "parts-order", lambda: S.Score(arg, id="sc"))
+            if not ok:
+                return None
+    if isinstance(holder, S.Score):
+        got = [p.id for p in holder.parts]
+        if got != exp:
+            res.fail("parts-order", expected=exp, observed=got, where="Score.parts", detail="shape=%s" % case["shape"])
+    return holder
 
 
 def check_notes(res, case, merged, S, objs, L):
@@ -459,14 +511,16 @@ def eval_case(case):
         res.transitions += 2
 
     ref = M.sounding_rows(case)
+    parts2 = [build_part(p) for p in parts_spec]
+    arg2 = M.make_container(case["shape"], parts2, S)
+    holder = check_order(res, case, arg2, S)
+    res.transitions += 1
     if ref:
-        parts2 = [build_part(p) for p in parts_spec]
-        arg2 = M.make_container(case["shape"], parts2, S)
-        holder = arg2 if isinstance(arg2, (S.Score, S.PartGroup)) else S.Score(list(parts2), id="sc")
-        ok2, sna = guarded(res, "score-note-array", holder.note_array, include_staff=True, include_divs_per_quarter=True)
-        res.transitions += 1
-        if ok2:
-            check_score_array(res, case, sna, rows)
+        if holder is not None:
+            ok2, sna = guarded(res, "score-note-array", holder.note_array, include_staff=True, include_divs_per_quarter=True)
+            res.transitions += 1
+            if ok2:
+                check_score_array(res, case, sna, rows)
     res.traces = 2
     nparts_with_notes = len({v[0] for v in ref.values()})
     res.nontrivial = nparts_with_notes >= 2
@@ -980,6 +1034,68 @@ def gen_loader():
     return g
 
 
+TREE_DIVS = [(2, 3, 4, 6), (1, 1, 1, 1), (6, 4, 1, 3), (3, 2, 3, 2)]
+
+
+def gen_trees(tier):
+    """every nesting of PartGroups over the parts (depth-first order = list order) under every root container"""
+    th = tier == "thorough"
+
+    def g():
+        k = 0
+        for n in (2, 3, 4) if th else (2, 3):
+            roots = ("list", "tuple", "group", "score") if n == 2 else ("list", "group", "score")
+            for t, f in enumerate(M.forests(n, 2)):
+                forest = M.number_leaves(f)
+                for r, root in enumerate(roots):
+                    for mode in MODES:
+                        k += 1
+                        if MODES[(t + r) % 3] != mode and (n == 4 or (n == 3 and not th)):
+                            continue
+                        ds = TREE_DIVS[k % 4]
+                        parts = [part_spec(i, ds[i], base_notes(i, ds[i])) for i in range(n)]
+                        yield mk(M.tree_shape(root, forest), mode, parts, "tree%d" % n)
+    return g
+
+
+LOADER_KINDS = ("notes", "rests", "unpitched", "rest+unpitched", "structure")
+
+
+def loader_part(i, d, kind):
+    """one complete 4/4 measure: pitched notes in two voices / two rests / two unpitched notes / an unpitched note
+    against rests with an off-quarter joint in a second voice / measure and signatures only"""
+    K = ("ts", "measure", "ks", "clef")
+    u = lambda j, s, e, v: {"k": "unpitched", "id": "p%du%d" % (i, j), "s": s, "e": e, "step": "E", "oct": 4, "voice": v, "staff": 1}
+    if kind == "notes":
+        objs = loader_content(i, d, 1)
+    elif kind == "rests":
+        objs = [rest("p%dr0" % i, 0, 2 * d, 1, 1), rest("p%dr1" % i, 2 * d, 4 * d, 1, 1)]
+    elif kind == "unpitched":
+        objs = [u(0, 0, d, 1), u(1, d, 4 * d, 1)]
+    elif kind == "rest+unpitched":
+        objs = [u(0, 0, 4 * d, 1), rest("p%dr0" % i, 0, 1, 2, 1), rest("p%dr1" % i, 1, 4 * d, 2, 1)]
+    elif kind == "structure":
+        objs = []
+    else:
+        raise ValueError(kind)
+    return part_spec(i, d, objs, kinds=K)
+
+
+def gen_loader_noteless():
+    def g():
+        k = 0
+        for kinds in itertools.product(LOADER_KINDS, repeat=2):
+            for ds in ((4, 3), (3, 4), (2, 2), (1, 6)):
+                yield mk("file-musicxml", "voice", [loader_part(i, ds[i], kd) for i, kd in enumerate(kinds)],
+                         "loader:%s" % "/".join(kinds))
+        for kinds in itertools.product(LOADER_KINDS, repeat=3):
+            k += 1
+            ds = ((2, 3, 4), (4, 6, 3), (6, 1, 4))[k % 3]
+            yield mk("file-musicxml", "voice", [loader_part(i, ds[i], kd) for i, kd in enumerate(kinds)],
+                     "loader:%s" % "/".join(kinds))
+    return g
+
+
 def spaces(tier, seed):
     th = tier == "thorough"
     sp = []
@@ -1036,6 +1152,18 @@ def spaces(tier, seed):
     sp.append(Space("off-note-voices", gen_off_note(), True,
                     "7 kinds of element in a voice/staff that no pitched note of its part uses x carried by first, second or both "
                     "parts x 3 modes, divisions pair cycled over 2"))
+    sp.append(Space("container-trees", gen_trees(tier), True,
+                    "every ordered forest of PartGroups over the parts in depth-first order, groups nested at most 2 deep below "
+                    "the root container, groups with a single child (part or sub-group) included: 14 forests of 2 parts x root "
+                    "container in {list, tuple, group, Score} x 3 modes; 70 forests of 3 parts x root in {list, group, Score} " +
+                    ("x 3 modes; 353 forests of 4 parts x 3 roots, mode cycled" if th else "(mode cycled)") +
+                    "; parts with distinct measures, signatures, clef, page, system and barline; divisions tuple cycled over 4"))
+    sp.append(Space("loader-noteless", gen_loader_noteless(), True,
+                    "load_score_as_part on a MusicXML file written from 2-3 parts, each part one of 5 contents filling one 4/4 "
+                    "measure (pitched notes in two voices, rests only, unpitched notes only, unpitched note against rests, "
+                    "measure and signatures only): 25 pairs x 4 divisions pairs {(4,3),(3,4),(2,2),(1,6)} + 125 triples "
+                    "(divisions triple cycled over 3); divisions, time points, presence and times of every note, rest and "
+                    "unpitched note, note array and voice classes of the result"))
     return sp
 
 
